@@ -126,7 +126,8 @@ impl<LHS: PrimInt, RHS: PrimInt> CheckedBinaryOp<LHS, RHS, i64> for Modulo<LHS, 
         if rhs.to_i64().unwrap() == 0 {
             (1, true)
         } else {
-            (lhs.to_i64().unwrap() % rhs.to_i64().unwrap(), false)
+            // i64::MIN % -1 is 0, but the `%` operator panics (or traps) on it
+            (lhs.to_i64().unwrap().wrapping_rem(rhs.to_i64().unwrap()), false)
         }
     }
 }
